@@ -242,6 +242,9 @@ class DelayPathos:
     def clear(self):
         self.p.clear()
 
+    def __getattr__(self, k):           # restart, terminate, map, ...: whatever else the code calls goes to the real pool
+        return getattr(self.p, k)
+
 
 class real_pools:
     def __init__(self, workers, seed):
